@@ -350,6 +350,10 @@ def prove(hyps, goal, timeout_ms=20000, extra_axioms=(), free_ufs_ok=False, ufs=
                     rep = _repair(z3, s, m2, em, universe, timeout_ms)
             finally:
                 s.pop()
+        if rep is not None and _repaired_is_spurious(z3, rep, em, universe, allv, hyps + list(extra_axioms), goal, ufs):
+            # the enclosures leave ~1e-25 of slack: an identity that holds exactly can be 'violated' inside it.
+            # Re-evaluated with the true functions the goal holds (or is within rounding), so this is no counterexample.
+            rep = None
         if rep is not None:
             env2 = _model_env(z3, rep, em, allv)
             mm = {'env': env2}
@@ -463,6 +467,47 @@ def _repair(z3, solver, m, em, universe, timeout_ms):
             except Exception:
                 pass
         return None
+    finally:
+        mpmath.mp.dps = old
+
+
+def _repaired_is_spurious(z3, m, em, universe, allv, hyps, goal, ufs):
+    """Evaluate hyps and goal with the TRUE transcendental functions at the repaired model (variables and uninterpreted
+    applications take the model's values). True when the goal then holds, is within the rounding band, or a hypothesis
+    fails: the 'counterexample' lives only in the slack of the enclosures. False when it is confirmed or cannot be
+    evaluated (the caller keeps the model; its hypotheses were satisfied up to 1e-25)."""
+    import mpmath
+    env = _model_env(z3, m, em, allv)
+    old = mpmath.mp.dps
+    mpmath.mp.dps = 50
+    try:
+        cache = {}
+        if not ufs:
+            for t in universe:
+                if t.op != 'uf':
+                    continue
+                try:
+                    v = m.eval(em(t), model_completion=True)
+                except Exception:
+                    continue
+                if t.sort == 'B':
+                    cache[t] = z3.is_true(v)
+                elif t.sort in ('R', 'I'):
+                    if z3.is_algebraic_value(v):
+                        v = v.approx(30)
+                    if z3.is_int_value(v) or z3.is_rational_value(v):
+                        fr = Fraction(v.as_fraction()) if not z3.is_int_value(v) else Fraction(v.as_long())
+                        cache[t] = mpmath.mpf(fr.numerator) / mpmath.mpf(fr.denominator)
+                else:
+                    cache[t] = str(v)
+        try:
+            for h in hyps:
+                if ir.evaluate(h, env, ufs, cache=cache) is False:
+                    return True
+            g = ir.evaluate(goal, env, ufs, cache=cache)
+        except (ir.EvalError, TypeError, KeyError, ZeroDivisionError, ValueError, OverflowError, NotImplementedError):
+            return False
+        return g is not False
     finally:
         mpmath.mp.dps = old
 
@@ -655,10 +700,12 @@ def _eval_op(t, a, mpmath):
             return a[0] ** int(n)
         if a[0] < 0 or (a[0] == 0 and a[1] <= 0):
             raise ir.EvalError('pow domain')
+        if a[0] > 0 and abs(a[1] * mpmath.log(a[0])) > 5000:
+            raise ir.EvalError('overflow')
         return mpmath.power(a[0], a[1])
     if op == 'exp':
-        if a[0] > 5000:
-            raise ir.EvalError('overflow')
+        if abs(a[0]) > 5000:
+            raise ir.EvalError('overflow')                      # also keeps mpmath from computing ln 2 to 1e30 digits
         return mpmath.exp(a[0])
     if op == 'log':
         if a[0] <= 0:
